@@ -133,6 +133,24 @@ def make_spec(rng, gen, kind, nsend=None, fail=None, shape=None):
              [rng.choice([{"w": "raise"}, {"w": "ok", "d": "raise"}]) for _ in range(len(spec["sends"]) - 1)] + \
              [{"w": "ok", "d": "ret"}] * 24
         spec.update(wscript=ws, fail="dd", fail_at=k, status_cb=rng.choice(["sleep", "sleep", "sleep", "yield"]), refuse=0)
+    if shape == "cancel":
+        # one multi-frame send() is cancelled while it waits for the transport; a later send() follows: its packets are
+        # contiguous, whatever happened to the cancelled one (whose packets so far are a prefix of the encoder's)
+        spec["sends"] = [{"msg": gen.message(rng, "fast"), "what": "fast", "delay": rng.choice([3, 5, 8]),
+                          "cancel_after": rng.choice([1, 2, 3, 4, 6])},
+                         {"msg": gen.message(rng, rng.choice(["fast", "single"])), "what": "x", "delay": rng.choice([0, 2, 150])},
+                         {"msg": gen.message(rng, "fast"), "what": "fast", "delay": 0}]
+        ws = [{"w": "ok", "d": "susp", "n": rng.choice([2, 3, 5])} for _ in range(30)]
+        spec.update(wscript=ws, fail=None, status_cb="ret", refuse=0, oracle_only=True)
+        spec.pop("fail_at", None)
+    if shape == "cb-sends":
+        spec["status_cb"] = "sends"
+        spec["oracle_only"] = True
+        if not spec.get("fail"):
+            spec["fail"] = "d"
+            spec["fail_at"] = 0
+            spec["wscript"] = [{"w": "ok", "d": "raise"}] + [{"w": "ok", "d": "ret"}] * 30
+        spec["refuse"] = 0
     if shape == "unconnected":
         spec["no_connect"] = True
     if shape == "unconnected-bad":
@@ -182,7 +200,7 @@ def oracle(spec, res):
     b = next(i for i, e in enumerate(ev) if e[0] == "begin")
     e_ = next(i for i, e in enumerate(ev) if e[0] == "end")
     body = ev[b + 1:e_]
-    order = [e[1] for e in body if e[0] == "enc"]
+    order = [e[1] for e in body if e[0] == "enc" and e[1] >= 0]        # (-1: a message sent by a callback, not one of the sends)
     exp_list = _fresh_packets(kind, [spec["sends"][i] for i in order])
     exp = dict(zip(order, exp_list))
     log = [(w, i, bytes.fromhex(h)) for w, i, h in res["bytelog"]]
@@ -195,6 +213,12 @@ def oracle(spec, res):
     failed = {e[1] for e in body if e[0] in ("wraise",) or (e[0] == "d" and e[2] == "raise") or
               (e[0] == "dres" and e[2] == "raise")}
     link_failed = bool(failed)
+    if any(e[0] == "callback_send_stuck" for e in ev):
+        return ("send-from-status-callback-stuck",
+                "the status callback, told DISCONNECTED after a failing write, called send(); that send() had not returned 30 s later "
+                f"(status trace {[e[1] for e in body if e[0] == 'status']})")
+    cancelled = {e[1] for e in body if e[0] == "cancel"}
+    failed |= cancelled          # a cancelled send() has written a prefix of its packets
     pre_open_ok = set()
     if spec.get("no_connect"):
         # an ENCODABLE message sent on a client that has no writer yet fails as a connection fault (and triggers the connect);
@@ -311,7 +335,7 @@ def tx_case(spec, res):
     table = ["EncOther"] * n
     labels = []
     for k, e in enumerate(body):
-        if e[0] == "enc":
+        if e[0] == "enc" and e[1] >= 0:
             i = e[1]
             if e[2] == "ok":
                 table[i] = "(EncOk %s)" % clist(cbytes(bytes.fromhex(h)) for h in e[3])
@@ -359,6 +383,10 @@ def _specs(ctx, gen, per):
         specs.append(make_spec(rng, gen, kind, shape="window", fail=False))
         specs.append(make_spec(rng, gen, kind, shape="twofail", fail=False))
         specs.append(make_spec(rng, gen, kind, shape="twofail", fail=False))
+        specs.append(make_spec(rng, gen, kind, shape="cancel", fail=False))
+        specs.append(make_spec(rng, gen, kind, shape="cancel", fail=False))
+        specs.append(make_spec(rng, gen, kind, shape="cb-sends", fail="d"))
+        specs.append(make_spec(rng, gen, kind, shape="cb-sends", fail="w"))
         for fail in ("w", "dd", None):
             specs.append(make_spec(rng, gen, kind, shape="close", fail=fail))
         for _ in range(per):
@@ -409,6 +437,9 @@ def correspond(ctx):
         dist["write_raised"] += sum(1 for e in ev if e[0] == "wraise")
         dist["drain_raised"] += sum(1 for e in ev if (e[0] == "d" and e[2] == "raise") or (e[0] == "dres" and e[2] == "raise"))
         dist["drain_suspended"] += sum(1 for e in ev if e[0] == "d" and e[2] == "susp")
+        if spec.get("oracle_only"):
+            dist["oracle_only"] = dist.get("oracle_only", 0) + 1      # cancellation / callbacks that send: outside the send LTS
+            continue
         cases.append(tx_case(spec, res))
         meta.append((spec, res))
     r = run_cases("C19", "tx", IMPORTS, "tx_case", "chk_tx", cases, shard=20)
